@@ -6,7 +6,7 @@ Open Scope Z_scope.
 
 (* The constraint added after a model of cost [bound]:
    sum_i w_i * (not l_i) >= maxCost - bound + 1   <->   cost <= bound - 1.
-   Neither the sign of the weights nor distinct variables are needed here. *)
+   Neither the sign of the weights nor distinct variables are needed. *)
 Theorem strengthen_equiv :
   forall (c : cost) (m : model) (bound : Z),
   Forall (fun t => snd t <> 0) c ->
@@ -15,18 +15,28 @@ Theorem strengthen_equiv :
 Proof. exact Proofs.Optim.strengthen_equiv. Qed.
 Print Assumptions strengthen_equiv.
 
-(* ... and this is the meaning of the constraint really built (sorted, zero weights trimmed). *)
+(* ... and this is the meaning of the constraint really added (boundConstr: GtEq, saturation,
+   sorting, zero weights dropped), for any integer weights ... *)
 Theorem bound_pbc_equiv :
-  forall (c : cost) (m : model) (bound : Z),
+  forall (c : cost) (m : model) (bound : Z) (b : pbc),
   Forall (fun t => snd t <> 0) c ->
-  (sat_pbc m (bound_pbc c bound) = true <-> cost_of m c <= bound - 1).
+  bound_pbc c bound = Some b ->
+  (sat_pbc m b = true <-> cost_of m c <= bound - 1).
 Proof. exact Proofs.Optim.bound_pbc_equiv. Qed.
 Print Assumptions bound_pbc_equiv.
 
-(* Optimal: weights >= 0, cost literals non-zero and within the n variables. *)
+(* ... and NewPBClause does not panic when the bound is the cost of some assignment. *)
+Theorem bound_pbc_no_panic :
+  forall (c : cost) (m : model),
+  Forall (fun t => snd t <> 0) c ->
+  exists b, bound_pbc c (cost_of m c) = Some b.
+Proof. exact Proofs.Optim.bound_pbc_no_panic. Qed.
+Print Assumptions bound_pbc_no_panic.
+
+(* Optimal: any integer weights; cost literals non-zero and within the n variables. *)
 Theorem C03_optimal :
   forall solve, solver_ok solve ->
-  forall n P (c : cost), nonneg_terms c = true -> cost_wf n c = true ->
+  forall n P (c : cost), cost_wf n c = true ->
   match fst (optimal solve n P (Some c)) with
   | OUnsat => ~ PSatisfiable n P
   | OSat m w => is_optimum n P c m /\ w = cost_of m c
@@ -34,17 +44,29 @@ Theorem C03_optimal :
 Proof. exact optimal_correct. Qed.
 Print Assumptions C03_optimal.
 
-(* The loop needs no more than the default fuel and the Go code does not panic. *)
+(* The loop needs no more than the default fuel (2 + log2 (sum |w|) doublings: the cost
+   decreases by at least 1 at each turn and stays between minCost and the sum of the
+   positive weights) and the Go code does not panic. *)
 Theorem C03_terminates :
   forall solve, solver_ok solve ->
-  forall n P (c : cost), nonneg_terms c = true -> cost_wf n c = true ->
+  forall n P (c : cost), cost_wf n c = true ->
   exists r s, optimal_run solve n P (Some c) = RDone r s /\
     match r with
     | OUnsat => ~ PSatisfiable n P /\ s = [OUnsat]
     | OSat m w => is_optimum n P c m /\ w = cost_of m c /\ stream_ok n P c s r
     end.
-Proof. exact optimal_run_nonneg. Qed.
+Proof. exact optimal_run_correct. Qed.
 Print Assumptions C03_terminates.
+
+(* Without cost_wf (a cost literal 0 or above n): Unsat, or an index out of range as soon
+   as a model is found. *)
+Theorem C03_ill_formed_cost :
+  forall solve, solver_ok solve ->
+  forall n P (c : cost), cost_wf n c = false ->
+  optimal_run solve n P (Some c) = RDone OUnsat [OUnsat] /\ ~ PSatisfiable n P \/
+  optimal_run solve n P (Some c) = RPanic [] /\ PSatisfiable n P.
+Proof. exact optimal_run_ill_formed. Qed.
+Print Assumptions C03_ill_formed_cost.
 
 Theorem C03_no_cost :
   forall solve, solver_ok solve ->
@@ -56,7 +78,9 @@ Theorem C03_no_cost :
 Proof. exact optimal_no_cost. Qed.
 Print Assumptions C03_no_cost.
 
-(* Minimize returns the weight of Optimal's result, -1 for Unsat; no hypothesis. *)
+(* Minimize returns the weight of Optimal's result, -1 for Unsat; no hypothesis.
+   With negative weights -1 is also a possible optimum: the integer alone is then
+   ambiguous, s.Model() (nil / panics when Unsat) is not, see the next two theorems. *)
 Theorem C03_minimize_agrees :
   forall (solve : solver) n P oc,
   minimize solve n P oc =
@@ -72,11 +96,22 @@ Theorem C03_minimize_model_agrees :
 Proof. exact minimize_model_agrees. Qed.
 Print Assumptions C03_minimize_model_agrees.
 
+Theorem C03_minimize :
+  forall solve, solver_ok solve ->
+  forall n P (c : cost), cost_wf n c = true ->
+  match minimize_run solve n P (Some c) with
+  | MRDone w None => w = -1 /\ ~ PSatisfiable n P
+  | MRDone w (Some m) => is_optimum n P c m /\ w = cost_of m c
+  | _ => False
+  end.
+Proof. exact minimize_correct. Qed.
+Print Assumptions C03_minimize.
+
 (* What is sent on the channel: models of P with their own cost, strictly decreasing
    costs, the last one is the returned result; the Unsat result is sent as well. *)
 Theorem C03_stream :
   forall solve, solver_ok solve ->
-  forall n P (c : cost), nonneg_terms c = true -> cost_wf n c = true ->
+  forall n P (c : cost), cost_wf n c = true ->
   let (r, s) := optimal solve n P (Some c) in
   match r with
   | OUnsat => s = [OUnsat]
@@ -92,46 +127,32 @@ Print Assumptions C03_stream.
 (* The returned weight is the one of the exhaustive oracle. *)
 Theorem C03_min_dec :
   forall solve, solver_ok solve ->
-  forall n P (c : cost), nonneg_terms c = true -> cost_wf n c = true ->
+  forall n P (c : cost), cost_wf n c = true ->
   min_dec n P c =
   match fst (optimal solve n P (Some c)) with OUnsat => None | OSat _ w => Some w end.
 Proof. exact optimal_min_dec. Qed.
 Print Assumptions C03_min_dec.
 
-(* Any weights: the loop always terminates within the default fuel, what it returns is a
-   model with its cost, optimal unless the loop stopped because of "cost == 0". *)
-Theorem C03_optimal_partial :
-  forall solve, solver_ok solve ->
-  forall n P (c : cost),
-  optimal_run solve n P (Some c) <> RFuel /\
-  forall m w s, optimal_run solve n P (Some c) = RDone (OSat m w) s ->
-    length m = n /\ sat_problem m P = true /\ w = cost_of m c /\
-    (w = 0 \/ is_optimum n P c m) /\ stream_ok n P c s (OSat m w).
-Proof. exact optimal_partial. Qed.
-Print Assumptions C03_optimal_partial.
+(* The two inputs on which the Go code failed before it was repaired (wrong optimum 0;
+   panic in NewPBClause): *)
+Example C03_negative_ok_1 :
+  cost_wf 1 [(-1, 1)] = true /\
+  optimal_ref 1 [] (Some [(-1, 1)]) = (OSat [true] (-1), [OSat [false] 0; OSat [true] (-1)]) /\
+  minimize_ref 1 [] (Some [(-1, 1)]) = -1 /\
+  minimize_model_ref 1 [] (Some [(-1, 1)]) = Some [true].
+Proof. exact negative_weight_ok_1. Qed.
 
-(* Negative weights (ParseOPB accepts them in "min:"): wrong optimum ... *)
-Theorem C03_negative_refuted :
-  exists n P (c : cost) m w,
-    cost_wf n c = true /\
-    fst (optimal_ref n P (Some c)) = OSat m w /\ minimize_ref n P (Some c) = w /\
-    ~ is_optimum n P c m.
-Proof. exact negative_weight_refuted. Qed.
-Print Assumptions C03_negative_refuted.
-
-(* ... or a panic in NewPBClause. *)
-Theorem C03_negative_panics :
-  exists n P (c : cost) s,
-    cost_wf n c = true /\ PSatisfiable n P /\
-    optimal_run_ref n P (Some c) = RPanic s /\ minimize_run_ref n P (Some c) = MRPanic.
-Proof. exact negative_weight_panics. Qed.
-Print Assumptions C03_negative_panics.
+Example C03_negative_ok_2 :
+  cost_wf 2 [(1, 1); (-1, 2)] = true /\
+  optimal_ref 2 [PBC [(1, 1)] 1] (Some [(1, 1); (-1, 2)]) =
+    (OSat [true; true] 0, [OSat [true; false] 1; OSat [true; true] 0]) /\
+  minimize_ref 2 [PBC [(1, 1)] 1] (Some [(1, 1); (-1, 2)]) = 0.
+Proof. exact negative_weight_ok_2. Qed.
 
 (* The hypotheses are satisfiable, and the closed instance computes. *)
 Example C03_hyps :
-  nonneg_terms [(3, -1); (2, -2); (4, -3)] = true /\ cost_wf 3 [(3, -1); (2, -2); (4, -3)] = true /\
-  solver_ok ref_solve.
-Proof. split; [reflexivity|]. split; [reflexivity|exact ref_solver_ok]. Qed.
+  cost_wf 3 [(3, -1); (-2, 2); (0, 3)] = true /\ solver_ok ref_solve.
+Proof. split; [reflexivity|exact ref_solver_ok]. Qed.
 
 (* x1+x2+x3 >= 2, min: 3 ~x1 + 2 ~x2 + 4 ~x3 *)
 Example C03_ex1 :
@@ -167,3 +188,34 @@ Example C03_ex_no_cost :
   optimal_ref 2 [PBC [(1, 1); (1, 2)] 1] None = (OSat [false; true] 0, [OSat [false; true] 0]) /\
   minimize_ref 2 [PBC [(1, 1); (1, 2)] 1] None = 0.
 Proof. split; vm_compute; reflexivity. Qed.
+
+(* negative weights: not(x1) or not(x2), x2 or x3 or x4; min: -5 x1 -4 x2 +3 x3 -1 x4 *)
+Example C03_ex_neg1 :
+  optimal_ref 4 [PBC [(1, -1); (1, -2)] 1; PBC [(1, 2); (1, 3); (1, 4)] 1]
+              (Some [(-5, 1); (-4, 2); (3, 3); (-1, 4)]) =
+  (OSat [true; false; false; true] (-6),
+   [OSat [false; false; false; true] (-1); OSat [false; true; false; false] (-4);
+    OSat [false; true; false; true] (-5); OSat [true; false; false; true] (-6)]) /\
+  min_dec 4 [PBC [(1, -1); (1, -2)] 1; PBC [(1, 2); (1, 3); (1, 4)] 1]
+          [(-5, 1); (-4, 2); (3, 3); (-1, 4)] = Some (-6).
+Proof. split; vm_compute; reflexivity. Qed.
+
+(* min: -4 x1 +3 x2 -2 x3 +0 x4 -6 x5, and the bound constraint "cost <= -7" after GtEq:
+   6 x5 + 4 x1 + 3 ~x2 + 2 x3 >= 10 (the zero weight in the middle is dropped) *)
+Example C03_ex_neg2 :
+  optimal_ref 5 [PBC [(3, 1); (2, 2); (2, -3); (1, 4); (1, 5)] 4; PBC [(1, -1); (1, -4)] 1]
+              (Some [(-4, 1); (3, 2); (-2, 3); (0, 4); (-6, 5)]) =
+  (OSat [true; false; true; false; true] (-12),
+   [OSat [false; false; false; true; true] (-6); OSat [true; false; false; false; true] (-10);
+    OSat [true; false; true; false; true] (-12)]) /\
+  bound_pbc [(-4, 1); (3, 2); (-2, 3); (0, 4); (-6, 5)] (-6) =
+  Some (PBC [(6, 5); (4, 1); (3, -2); (2, 3)] 10).
+Proof. split; vm_compute; reflexivity. Qed.
+
+(* Minimize's -1 is ambiguous with negative weights: an optimum of -1 and Unsat *)
+Example C03_ex_minus_one :
+  minimize_ref 2 [PBC [(1, 1); (1, 2)] 1] (Some [(-1, 1); (1, 2)]) = -1 /\
+  minimize_model_ref 2 [PBC [(1, 1); (1, 2)] 1] (Some [(-1, 1); (1, 2)]) = Some [true; false] /\
+  minimize_ref 1 [PBC [(1, 1)] 1; PBC [(1, -1)] 1] (Some [(-1, 1)]) = -1 /\
+  minimize_model_ref 1 [PBC [(1, 1)] 1; PBC [(1, -1)] 1] (Some [(-1, 1)]) = None.
+Proof. repeat split; vm_compute; reflexivity. Qed.
